@@ -175,6 +175,15 @@ def r2_peek_then_consume(ctx):
         ctx.ob("R03.2", "decode:%s" % last, ok and amount_ok, c.site,
                "%s dominated by both completeness guards; amount exact" % det if ok and amount_ok else
                ("%s consumes from src %s" % (det or last, "before the frame is known to be complete (not dominated by the false edges of both guards)" if not ok else "with an amount that is not the header constant / the parsed length")))
+    # the receive buffer is only ever shortened from the front by exactly one frame: it is never replaced or swapped out
+    from .common import stores_through
+    repl = [(bi, line) for bi, line, base, val, place in stores_through(dec, o) if var_name(base) == "src"]
+    for c in dec.calls():
+        if (c.norm or "").split("::")[-1] in ("replace", "take", "swap") and "mem::" in (c.norm or "") and c.args and any(var_name(o.of_operand(a)) == "src" for a in c.args):
+            repl.append((c.bb, c.line))
+    ctx.ob("R03.2", "decode:src-is-never-replaced", not repl, "src/protocol/codec.rs:%s" % repl[0][1] if repl else "", "no assignment through `src`" if not repl else
+           "decode assigns a new buffer to `*src` (line %s): whatever was still in the old one — the first bytes of the next header when a read ended 1..6 bytes into it — is thrown away, and everything after "
+           "is mis-framed; the same bytes cut anywhere else decode correctly" % repl[0][1])
     # early exits return Ok(None)
     for label, edges in (("header", hdr_true), ("frame", full_true)):
         starts = [e[1] for e in edges]
